@@ -13,8 +13,8 @@
    argument (inplace=True): every check happens BEFORE the first assignment
      F7  decompose_qpd_instructions   (unrepaired: map ids are range-checked by the basis_id
                                        setter inside the assignment loop)
-     F8  partition_circuit_qubits     (unrepaired: circuit.data[i] replaced inside the checking loop)
-     F9  cut_gates                    (unrepaired: likewise)
+     F12 partition_circuit_qubits     (unrepaired: circuit.data[i] replaced inside the checking loop)
+     F13 cut_gates                    (unrepaired: likewise)
    *_final gives the state of the argument after a call with inplace=True.
    dq_run_interleaved is the UNREPAIRED loop of decompose_qpd_instructions, kept only to state
    the difference (Properties/C18.v, c18_f7_interleaved_breaks_frame).
@@ -180,19 +180,32 @@ Record pp_in := mkPp {
   pp_obs : option (list (nat * nat));      (* per observable: (len(obs), obs.phase) *)
   pp_ncregs : nat;
   pp_nclbits : nat;
-  pp_insts : list ginst
+  pp_insts : list ginst;
+  pp_support : list (list nat)             (* per observable: the qubits it acts on non-trivially *)
 }.
 Definition none_label_used (l : list label) (insts : list ginst) : bool :=
   existsb (fun g => existsb (fun q => is_none (nth q l None)) (gi_qs g)) insts.
+(* automatic labels (_partition_labels_from_circuit): only which qubits get None matters here:
+   exactly the qubits no instruction touches *)
+Definition touched (insts : list ginst) (q : nat) : bool := existsb (fun g => existsb (Nat.eqb q) (gi_qs g)) insts.
+Definition auto_labels (nq : nat) (insts : list ginst) : list label :=
+  map (fun q => if touched insts q then Some 0 else None) (seq 0 nq).
+(* fifth guard (idle group): an observable acts non-trivially on a qubit whose label is None *)
+Definition idle_observable (l : list label) (support : list (list nat)) : bool :=
+  existsb (existsb (fun q => is_none (nth q l None))) support.
+Definition pp_support_eff (i : pp_in) : list (list nat) :=
+  match pp_obs i with Some _ => pp_support i | None => [] end.
 Definition api_partition_problem (i : pp_in) : outcome :=
   andthen (refuse_if (match pp_labels i with Some l => negb (length l =? pp_nq i) | None => false end))
  (andthen (refuse_if (match pp_obs i with Some o => existsb (fun p => negb (fst p =? pp_nq i)) o | None => false end))
  (andthen (refuse_if (match pp_obs i with Some o => existsb (fun p => negb (snd p =? 0)) o | None => false end))
  (andthen (refuse_if (has_clbits (pp_ncregs i) (pp_nclbits i)))
    (match pp_labels i with
-    | None => Proceeds      (* automatic labels = connected components: no gate spans two of them *)
+    | None =>               (* automatic labels = connected components: no gate spans two of them *)
+        refuse_if (idle_observable (auto_labels (pp_nq i) (pp_insts i)) (pp_support_eff i))
     | Some l => andthen (pcq_loop l (pp_insts i))                         (* partition_circuit_qubits *)
-                        (refuse_if (none_label_used l (pp_insts i)))      (* separate_circuit: label None must be idle *)
+               (andthen (refuse_if (none_label_used l (pp_insts i)))      (* separate_circuit: label None must be idle *)
+                        (refuse_if (idle_observable l (pp_support_eff i))))
     end)))).
 
 (* ---------- automated_cut_finding.py find_cuts ---------- *)
@@ -210,6 +223,8 @@ Definition api_find_cuts (i : fc_in) : outcome :=
  (andthen (api_opt_settings (fc_gamma i) (fc_backjumps i))
           (refuse_if (existsb fc_wide (fc_insts i)))).
 
+Definition any_phase (l : list nat) : bool := existsb (fun p => negb (p =? 0)) l.
+
 (* ---------- cutting_experiments.py generate_cutting_experiments ---------- *)
 Inductive cform := CCircuit | CDict | COther.     (* type of `circuits` *)
 Inductive oform := OPauliList | ODict | OOther.   (* type of `observables` *)
@@ -225,14 +240,26 @@ Definition api_get_bases (c : list gen_kind) : outcome := refuse_if (existsb is_
 Definition api_mapping_ids (cs : list (list gen_kind)) : outcome :=
   refuse_if (existsb (existsb bad_label) cs).
 Record gen_in := mkGen { ge_cform : cform; ge_oform : oform; ge_budget : budget;
-                         ge_circs : list (list gen_kind) }.   (* one list per subcircuit, dict order *)
+                         ge_circs : list (list gen_kind);    (* one list per subcircuit, dict order *)
+                         ge_phases : list (list nat);        (* dict form: phases of observables[label], dict order *)
+                         ge_tail : list (bool * bool) }.     (* per observables label, in order:
+                                                                (label is a key of circuits, observable width = subcircuit width) *)
+(* experiment loop: subcircuit_dict[label] (KeyError) then _append_measurement_circuit's qubit-count check *)
+Fixpoint gen_tail (t : list (bool * bool)) : outcome :=
+  match t with
+  | [] => Proceeds
+  | (haskey, sizeok) :: r => if negb haskey then Crashed else if negb sizeok then Refused else gen_tail r
+  end.
 Definition api_generate (i : gen_in) : outcome :=
   andthen (refuse_if (is_ccircuit (ge_cform i) && negb (is_oplist (ge_oform i))))
  (andthen (refuse_if (is_cdict (ge_cform i) && negb (is_odict (ge_oform i))))
  (andthen (refuse_if (negb (b_ge (ge_budget i) Q1)))
    (match ge_cform i with
-    | CCircuit => api_get_bases (hd [] (ge_circs i))
-    | CDict => api_mapping_ids (ge_circs i)
+    | CCircuit => andthen (api_get_bases (hd [] (ge_circs i))) (gen_tail (ge_tail i))
+                  (* a phase on a PauliList is silently dropped here (observables_restricted_to_subsystem) *)
+    | CDict => andthen (api_mapping_ids (ge_circs i))
+              (andthen (refuse_if (existsb any_phase (ge_phases i)))      (* ObservableCollection -> CommutingObservableGroup *)
+                       (gen_tail (ge_tail i)))
     | COther => Crashed                                  (* circuits.items(): AttributeError *)
     end))).
 
@@ -248,7 +275,6 @@ Record rec_in := mkRec {
   rc_ncoef : nat;
   rc_counts : list (nat * nat)     (* per subsystem: (len(results[label]), number of commuting groups) *)
 }.
-Definition any_phase (l : list nat) : bool := existsb (fun p => negb (p =? 0)) l.
 Definition rc_count_guard (i : rec_in) : outcome :=
   refuse_if (existsb (fun p => negb (fst p =? rc_ncoef i * snd p)) (rc_counts i)).
 Definition api_reconstruct (i : rec_in) : outcome :=
@@ -291,7 +317,8 @@ Definition api_q2gate (basis_nq nmaps : nat) (bid : option Z) : outcome :=
 (* ---------- qpd/decompose.py decompose_qpd_instructions ---------- *)
 Inductive dq_inst := DQ (basis nmaps : nat) (bid : option nat)   (* BaseQPDGate: basis handle (== class), len(basis.maps), basis_id *)
                    | DOther.
-Record dq_in := mkDq { dq_circ : list dq_inst; dq_ids : list (list nat); dq_maps : option (list Z) }.
+(* map_ids: None = argument omitted; an ENTRY None is refused by the pre-validation (32107ac) *)
+Record dq_in := mkDq { dq_circ : list dq_inst; dq_ids : list (list nat); dq_maps : option (list (option Z)) }.
 
 Fixpoint dq_members (c : list dq_inst) (b0 : nat) (g : list nat) : outcome :=
   match g with
@@ -321,29 +348,36 @@ Definition api_validate_qpd (c : list dq_inst) (ids : list (list nat)) : outcome
   andthen (dq_groups c ids) (refuse_if (dq_total_mismatch c ids)).
 
 (* first pass (F7 repair): every map id against the basis of every gate it will be assigned to *)
-Definition dq_gate_ok (c : list dq_inst) (m : Z) (k : nat) : bool :=
-  match nth_error c k with Some (DQ _ n _) => in_range m n | _ => true end.
-Definition dq_check (c : list dq_inst) (gm : list (list nat * Z)) : bool :=
+Definition map_ok (m : option Z) (n : nat) : bool := match m with Some z => in_range z n | None => false end.
+Definition dq_gate_ok (c : list dq_inst) (m : option Z) (k : nat) : bool :=
+  match nth_error c k with Some (DQ _ n _) => map_ok m n | _ => true end.
+Definition dq_check (c : list dq_inst) (gm : list (list nat * option Z)) : bool :=
   forallb (fun p => forallb (dq_gate_ok c (snd p)) (fst p)) gm.
 (* second pass: the assignment loop *)
-Definition dq_set (c : list dq_inst) (k : nat) (m : Z) : list dq_inst :=
-  match nth_error c k with Some (DQ b n _) => upd c k (DQ b n (Some (Z.to_nat m))) | _ => c end.
-Definition dq_assign_group (c : list dq_inst) (g : list nat) (m : Z) : list dq_inst :=
+Definition bid_of_map (m : option Z) : option nat := option_map Z.to_nat m.
+Definition dq_set (c : list dq_inst) (k : nat) (m : option Z) : list dq_inst :=
+  match nth_error c k with Some (DQ b n _) => upd c k (DQ b n (bid_of_map m)) | _ => c end.
+Definition dq_assign_group (c : list dq_inst) (g : list nat) (m : option Z) : list dq_inst :=
   fold_left (fun c' k => dq_set c' k m) g c.
-Fixpoint dq_assign (c : list dq_inst) (gm : list (list nat * Z)) : list dq_inst :=
+Fixpoint dq_assign (c : list dq_inst) (gm : list (list nat * option Z)) : list dq_inst :=
   match gm with [] => c | p :: r => dq_assign (dq_assign_group c (fst p) (snd p)) r end.
 
-(* (outcome of validation + map-id stage, state of the argument circuit with inplace=True at that point) *)
+(* _decompose_qpd_instructions (c8b859e): every QPD gate needs a basis_id BEFORE any rewriting *)
+Definition dq_unset (x : dq_inst) : bool := match x with DQ _ _ None => true | _ => false end.
+Definition dq_stage3 (c : list dq_inst) : outcome * list dq_inst :=
+  (refuse_if (existsb dq_unset c), c).
+(* (outcome of validation + map-id stage + unset check, state of the argument circuit with inplace=True
+   at that point: nothing has been rewritten yet) *)
 Definition dq_run (i : dq_in) : outcome * list dq_inst :=
   let c := dq_circ i in
   match api_validate_qpd c (dq_ids i) with
   | Ok _ =>
       match dq_maps i with
-      | None => (Proceeds, c)
+      | None => dq_stage3 c
       | Some ms =>
           if negb (length (dq_ids i) =? length ms) then (Refused, c)
           else let gm := combine (dq_ids i) ms in
-               if dq_check c gm then (Proceeds, dq_assign c gm) else (Refused, c)
+               if dq_check c gm then dq_stage3 (dq_assign c gm) else (Refused, c)
       end
   | Refused => (Refused, c)
   | Crashed => (Crashed, c)
@@ -353,12 +387,12 @@ Definition dq_final (i : dq_in) : list dq_inst := snd (dq_run i).
 
 (* the UNREPAIRED loop (for reference only): check and assignment interleaved, as the basis_id
    setter does it; stops at the first bad id with the earlier assignments already made *)
-Fixpoint dq_interleaved_group (c : list dq_inst) (g : list nat) (m : Z) : outcome * list dq_inst :=
+Fixpoint dq_interleaved_group (c : list dq_inst) (g : list nat) (m : option Z) : outcome * list dq_inst :=
   match g with
   | [] => (Proceeds, c)
   | k :: r => if dq_gate_ok c m k then dq_interleaved_group (dq_set c k m) r m else (Refused, c)
   end.
-Fixpoint dq_interleaved (c : list dq_inst) (gm : list (list nat * Z)) : outcome * list dq_inst :=
+Fixpoint dq_interleaved (c : list dq_inst) (gm : list (list nat * option Z)) : outcome * list dq_inst :=
   match gm with
   | [] => (Proceeds, c)
   | p :: r => match dq_interleaved_group c (fst p) (snd p) with
